@@ -197,7 +197,6 @@ def check_clip(case):
 
 
 BENIGN = ('header-length-not-6', 'vlq-not-minimal:delta', 'vlq-not-minimal:meta-length', 'vlq-not-minimal:sysex-length')
-LAST_CLAIM = [False]
 
 
 def events_to_dicts(evs):
@@ -229,26 +228,35 @@ def events_to_dicts(evs):
     return out
 
 
-def check_bytes(raw):
-    """Arbitrary bytes (coverage-guided fuzzing): when the independent strict decoder finds them to be a conformant
-    file - apart from the liberties the property allows a reader to meet - mido must load exactly the decoded events."""
-    LAST_CLAIM[0] = False
+def conformant_content(raw):
+    """(format, division, tracks as message dicts) when the independent strict decoder accepts the bytes as a conformant
+    file whose events it can name; None otherwise (then nothing is claimed about them)."""
     b = bytes(raw)
     try:
         (fmt, ntrks, div, hlen), tracks, flags = F.strict_decode(b)
     except (F.SMFError, ValueError, IndexError, KeyError):
-        return []
+        return None
     if any(f not in BENIGN for f in flags) or fmt not in (0, 1, 2) or div >= 0x8000 or div == 0 or ntrks != len(tracks):
-        return []
+        return None
     if 8 + hlen + sum(8 for _ in tracks) > len(b):
-        return []
+        return None
     want = []
     for evs in tracks:
         ds = events_to_dicts(evs)
         if ds is None:
-            return []
+            return None
         want.append(ds)
-    LAST_CLAIM[0] = True
+    return fmt, div, want
+
+
+def check_bytes(raw):
+    """Arbitrary bytes (coverage-guided fuzzing): when the independent strict decoder finds them to be a conformant
+    file - apart from the liberties the property allows a reader to meet - mido must load exactly the decoded events."""
+    content = conformant_content(raw)
+    if content is None:
+        return []
+    fmt, div, want = content
+    b = bytes(raw)
     out = []
     for debug in (False, True):
         what = f'debug={debug}'
@@ -386,9 +394,10 @@ def fuzz_seeds():
 
 def main(ctx):
     for b in fuzz_seeds():
-        ctx.check({'kind': 'bytes', 'bytes': list(b)}, classes=('bytes',), sample=False)
-        if not LAST_CLAIM[0]:
-            raise RuntimeError('a fuzz seed is not judged conformant by the reference decoder')
+        if len(b) >= 4 and b[:4] == b'MThd':
+            if conformant_content(b) is None:
+                raise RuntimeError('a fuzz seed is not judged conformant by the reference decoder')
+            ctx.check({'kind': 'bytes', 'bytes': list(b)}, classes=('bytes',), sample=False)
     if ctx.tier == 'thorough' and not ctx.reduced:
         from lib.harness import run_fuzz
         run_fuzz(ctx, 'C08', 400000, fuzz_seeds(), max_len=160)
